@@ -79,23 +79,21 @@ theorem bareTail_all (cs t : Str) (h : cs.all nameRest = true) : bareTail (cs ++
     simp only [List.all_cons, Bool.and_eq_true] at h
     simp [bareTail, h.1, ih h.2]
 
-/-- a metric name passes `escape_metric_name` unquoted only if it is in the bare alphabet — unless it is an F2 name -/
-theorem legacy_metric_bare (n : Str) (hok : f2Name metricNameRe n = false)
-    (hl : isValidLegacyMetricName n = true) : bareMetricName n = true :=
-  matchExact_metric_bare n (matchName_of_not_f2 _ _ n hok hl)
+/-- a metric name passes `escape_metric_name` unquoted only if it is in the bare alphabet (exact end anchor: F2 repaired) -/
+theorem legacy_metric_bare (n : Str) (hl : isValidLegacyMetricName n = true) : bareMetricName n = true :=
+  matchExact_metric_bare n (matchName_exact _ _ n metric_anchor_exact hl)
 
-theorem legacy_label_bare (k : Str) (hok : f2Name labelNameRe k = false)
-    (hl : isValidLegacyLabelname k = true) : bareLabelName k = true := by
+theorem legacy_label_bare (k : Str) (hl : isValidLegacyLabelname k = true) : bareLabelName k = true := by
   simp only [isValidLegacyLabelname, Bool.and_eq_true] at hl
-  exact matchExact_label_bare k (matchName_of_not_f2 _ _ k hok hl.1)
+  exact matchExact_label_bare k (matchName_exact _ _ k label_anchor_exact hl.1)
 
 /-- `name SP rest` of a metadata line, with the name as `escape_metric_name` writes it -/
-theorem metaName_escapeMetricName (n t : Str) (hok : f2Name metricNameRe n = false) :
+theorem metaName_escapeMetricName (n t : Str) :
     metaName (escapeMetricName n ++ ' ' :: t) = some t := by
   unfold escapeMetricName
   split
   · next hl =>
-    have hb := legacy_metric_bare n hok hl
+    have hb := legacy_metric_bare n hl
     cases n with
     | nil => simp [bareMetricName] at hb
     | cons c cs =>
@@ -105,40 +103,42 @@ theorem metaName_escapeMetricName (n t : Str) (hok : f2Name metricNameRe n = fal
     simp [metaName, h1, qscan_escape]
 
 -- labels ------------------------------------------------------------------------------------------------------
-/-- one `name="value"` item as both expositions write it, from a state where a label must start -/
-theorem run_labelItem (om f : Bool) (k v : Str) (hok : f2Name labelNameRe k = false) :
-    run om (.lb false f) (escapeLabelName k ++ ['=', '"'] ++ escape v ++ ['"']) = .qe .lval := by
-  have hq : ∀ st, step om st '=' = .eq false → run om st (['=', '"'] ++ escape v ++ ['"']) = .qe .lval := by
+/-- one `name="value"` item as the expositions write it (sample labels: `ex = false`; exemplar labels: `ex = true`),
+from a state where a label must start — for EVERY name and value -/
+theorem run_labelItem (om ex f : Bool) (k v : Str) :
+    run om (.lb ex f) (escapeLabelName k ++ ['=', '"'] ++ escape v ++ ['"']) = .qe (if ex then .exval else .lval) := by
+  have hq : ∀ st, step om st '=' = .eq ex →
+      run om st (['=', '"'] ++ escape v ++ ['"']) = .qe (if ex then .exval else .lval) := by
     intro st hst
     simp only [List.cons_append, List.nil_append, run_cons, hst, run_append]
-    simp [step, run_escape]
+    cases ex <;> simp [step, run_escape]
   unfold escapeLabelName
   split
   · next hl =>
-    rw [List.append_assoc, List.append_assoc, run_append, run_bareLabel om false f k (legacy_label_bare k hok hl)]
+    rw [List.append_assoc, List.append_assoc, run_append, run_bareLabel om ex f k (legacy_label_bare k hl)]
     rw [← List.append_assoc]
     exact hq _ (by
       have : labelRest '=' = false := by decide
       simp [step, this])
-  · have : run om (.lb false f) (['"'] ++ escape k ++ ['"']) = .qe .lname := by
+  · have : run om (.lb ex f) (['"'] ++ escape k ++ ['"']) = .qe (if ex then .exname else .lname) := by
       have h1 : labelFirst '"' = false := by decide
-      simp [run_cons, run_append, step, labelStart, h1, run_escape]
+      cases ex <;> simp [run_cons, run_append, step, labelStart, h1, run_escape]
     rw [List.append_assoc, List.append_assoc, run_append, this, ← List.append_assoc]
-    exact hq _ (by simp [step])
+    exact hq _ (by cases ex <;> simp [step])
 
 /-- a non-empty comma-joined label list -/
-theorem run_labelList (om f : Bool) (item : Str × Str → Str)
-    (hitem : ∀ f kv, f2Name labelNameRe kv.1 = false → run om (.lb false f) (item kv) = .qe .lval)
-    (kv : Str × Str) (l : List (Str × Str)) (hok : ∀ x ∈ kv :: l, f2Name labelNameRe x.1 = false) :
-    run om (.lb false f) (joinStr [','] ((kv :: l).map item)) = .qe .lval := by
+theorem run_labelList (om ex f : Bool) (item : Str × Str → Str)
+    (hitem : ∀ f kv, run om (.lb ex f) (item kv) = .qe (if ex then .exval else .lval))
+    (kv : Str × Str) (l : List (Str × Str)) :
+    run om (.lb ex f) (joinStr [','] ((kv :: l).map item)) = .qe (if ex then .exval else .lval) := by
   induction l generalizing kv f with
-  | nil => simpa [joinStr] using hitem f kv (hok kv (by simp))
+  | nil => simpa [joinStr] using hitem f kv
   | cons y ys ih =>
     simp only [List.map_cons, joinStr, List.append_assoc, run_append]
-    rw [hitem f kv (hok kv (by simp))]
-    have := ih false y (fun x hx => hok x (by simp [List.mem_cons] at hx ⊢; right; exact hx))
+    rw [hitem f kv]
+    have := ih false y
     simp only [List.map_cons] at this
-    simpa [run_cons, step] using this
+    cases ex <;> simpa [run_cons, step] using this
 
 -- sorting keeps the elements ------------------------------------------------------------------------------------
 theorem mem_insertByKey {β : Type} (kv x : Str × β) (l : List (Str × β)) :
